@@ -110,6 +110,19 @@ def fallback_candidates(j):
     """concrete inputs for the native confirmation of a solver-flagged obligation whose trace run delivered no values"""
     if j.body.endswith("c11c_term"):
         return [[y, i, n] for y in (2023, 2) for n in list(range(-30, 31)) for i in range(24)]
+    if j.body.endswith("c11e_lunar_month"):
+        # draw order: the window's leap table, then year, month, leap flag, n.  The real leap months of the window's years (the replayer
+        # looks the table up among the real years), every month of the inner years, every step size of the tier
+        REAL = {1998: 5, 1999: 0, 2000: 0, 2001: 4, 2002: 0, 2003: 0, 2004: 2, 2005: 0, 2006: 7, 2007: 0, 2008: 0, 2009: 5, 2010: 0}
+        y0, w, nmax = int(j.params[0]), int(j.params[1]), int(j.params[2])
+        table = [REAL.get(y0 + k, 0) for k in range(w)]
+        out = []
+        for y in range(y0 + 1, y0 + w - 1):
+            for m in range(1, 13):
+                for lf in ((0, 1) if REAL.get(y, 0) == m else (0,)):
+                    for n in range(-nmax, nmax + 1):
+                        out.append(table + [y, m, lf, n])
+        return out
     return []
 
 def describe(j, vals):
